@@ -242,7 +242,7 @@ func unconditional(i ssa.Instruction) bool {
 
 // encSegs: the segments encoding/binary.Write(order, datum) emits.
 func (d *deepView) encSegs(datum ssa.Value, fr *frame, order string, at ssa.Instruction, depth int) ([]bseg, bool) {
-	v := d.resolveConv(ir.StripIface(datum), fr)
+	v := d.resolveAll(datum, fr)
 	t := v.v.Type()
 	// pointer to a value: the pointee is encoded
 	if p, ok := t.Underlying().(*types.Pointer); ok {
@@ -304,6 +304,25 @@ func (d *deepView) bufferSeq(obj dval, at ssa.Instruction, atFr *frame, depth in
 		cond := !unconditional(di.i)
 		var add []bseg
 		okAdd := true
+		// the range-over-literal idiom: one write per element of the literal
+		if id == "encoding/binary.Write" && touches == 0 && inLoop(di.fr.fn, di.i.Block()) {
+			if iv, n, isLit := d.rangeLiteral(args[2], di.fr); isLit && n <= 32 {
+				order := byteOrderOf(d.resolve(args[1], di.fr).v)
+				if o := byteOrderOf(args[1]); o != "?" {
+					order = o
+				}
+				for k := int64(0); k < n && okAdd; k++ {
+					var part []bseg
+					d.under(listItem{idx: map[ssa.Value]int64{iv: k}}, func() { part, okAdd = d.encSegs(args[2], di.fr, order, di.i, depth) })
+					add = append(add, part...)
+				}
+				if !okAdd {
+					return nil, false
+				}
+				out = append(out, add...)
+				continue
+			}
+		}
 		switch {
 		case id == "encoding/binary.Write" && touches == 0:
 			add, okAdd = d.encSegs(args[2], di.fr, byteOrderOf(d.resolve(args[1], di.fr).v), di.i, depth)
